@@ -808,8 +808,9 @@ def run_c11(rep, tier, seed):
         preset = rng.choice(["frag=0/1 dead=0 small=1099511627776", "frag=1/4 dead=1099511627776 small=0"])
         mix = ""
         if ri % 3 == 2:
-            # hot key, SET and GET only (no DEL): a GET that follows an acknowledged SET can never be answered with a null
-            keys, clients, ops, mix = 1, 8, ops * 4, " sets=25 dels=0"
+            # hot key, SET and GET only (no DEL): a GET that follows an acknowledged SET can never be answered with a null;
+            # a preemption injector interrupts the server's runtime threads (workers and blocking pool) at random instructions
+            keys, clients, ops, mix = 1, 8, ops * 4, " sets=25 dels=0 preempt_us=300 pause_us=20"
         script = [f"srv.start max=32 mfs={mfs} pool={rng.choice([1, 2, 4])} {preset}",
                   f"netstress clients={clients} ops={ops} keys={keys} seed={rng.randint(1, 10**6)} big={rng.choice([0, 10, 30])}{mix}", "srv.alive", "srv.stop"]
         shutil.rmtree(root, ignore_errors=True)
